@@ -14,7 +14,7 @@ RULE = ("Hypothesis-generated histories of 1-4 reaction steps (cellgen.py): each
         "(ideal, binary Guggenheim), KINETICS (5 rate laws with -formula, cvode/RK), newly defined or carried over through "
         "SAVE/COPY, INCREMENTAL_REACTIONS on/off, batch or RUN_CELLS, optional REACTION_TEMPERATURE; phreeqc.dat, wateq4f.dat, "
         "pitzer.dat. Inventories before/after are computed from DUMP text with formulas from the database text; every element "
-        "(incl. H, O) and the net charge must close to 1e-6 of the system inventory (floor 1e-14 mol), and no phase / gas / "
+        "(incl. H, O) and the net charge must close to 1e-6 of the system inventory (floor 1e-12 mol), and no phase / gas / "
         "exchanger / kinetic amount may be negative. Non-trivial = a step with >=2 reactant kinds besides the solution in which "
         ">=1 element moved between reservoirs by >1e-9 mol; distinct by SHA-256 of the case")
 ASSUMPTIONS = ["DUMP -all writes every stored reactant with >=14 significant digits (format precision 1e-14 << 1e-6)",
@@ -23,10 +23,12 @@ ASSUMPTIONS = ["DUMP -all writes every stored reactant with >=14 significant dig
                "defines more steps)",
                "REACTION / KINETICS formulas generated are electrically neutral (the engine does not track reactant charge)",
                "charge scale for the relative tolerance = total moles of non-H/O elements in the cell (proxy for the ionic equivalents)",
-               "amounts below 1e-20 mol are the engine's representation of zero (MIN_TOTAL 1e-25, solid solutions 1e-27)",
+               "element inventories below 1e-12 mol are compared with an absolute 1e-18 mol: the engine represents zero by "
+               "1e-25..1e-27 mol and accepts mass-balance residuals of sqrt(moles x 1e-25)",
                "excluded by construction (counted in classes): KNOBS -iterations > 100 for cells with SOLID_SOLUTIONS + fixed-volume "
                "GAS_PHASE (known finding: mass lost/created at the switch to numerical derivatives), never-equilibrated -donnan "
-               "surfaces (known finding: diffuse-layer water created at first contact; they are defined with -equilibrate instead), CVODE for rates that overshoot "
+               "surfaces (known finding: diffuse-layer water created at first contact; they are defined with -equilibrate instead), two SOLID_SOLUTIONS blocks of one history "
+               "sharing a solid-solution name (known finding: the second is solved with the phases of the first), CVODE for rates that overshoot "
                "the reactant, kinetic uptake of substances not abundantly present in every solution (engine does not return)"]
 TECHNIQUE = "property-based testing (Hypothesis) with an independent inventory oracle over DUMP text"
 LEVEL_TEXT = ("Exploration: thousands of generated cell histories per run; for every step every element (incl. H, O) and the net "
@@ -40,9 +42,11 @@ DBS = {"quick": ("phreeqc.dat", "phreeqc.dat", "phreeqc.dat", "wateq4f.dat", "pi
 RTOL = 1e-6
 # Near-zero rule (DESIGN 4.3): the relative tolerance is applied to max(system inventory, FLOOR).  The engine represents
 # "absent" by tiny positive amounts (MIN_TOTAL = 1e-25 mol, 1e-27 mol for solid-solution components), so an element that
-# is not in the system may show up with ~1e-27 mol after a step.  FLOOR = 1e-14 mol gives an absolute slack of 1e-20 mol,
-# eight orders below 1e-6 of the smallest amount the generator can produce (1e-6 mol/kgw x 0.1 kg).
-FLOOR = 1e-14
+# is not in the system may show up with ~1e-27 mol after a step, and its mass-balance test accepts an absolute residual
+# of sqrt(moles x MIN_TOTAL) (model.cpp residuals(): 2.6e-20 mol for an element present with 7e-15 mol - seen in the
+# thorough tier as 2.3e-6 of a 7e-15 mol nitrogen inventory).  FLOOR = 1e-12 mol gives an absolute slack of 1e-18 mol,
+# still below 1e-6 of the smallest amount the generator can produce (1e-9 mol/kgw x 0.1 kg x mixing fraction 0.05).
+FLOOR = 1e-12
 MOVED = 1e-9
 
 
@@ -206,6 +210,8 @@ def check_case(case, ctx):
     classes = ["db=" + case["db"], "hist=%d" % done]
     if case.get("knobs_iterations") is None and G.ss_with_fixed_volume_gas(case):
         classes.append("excluded_trigger:ss+fixed_volume_gas_runs_with_itmax_100")
+    if case.get("ss_names") != "raw" and sum(1 for s in case["steps"] if isinstance(s.get("ss"), dict)) >= 2:
+        classes.append("excluded_trigger:solid_solution_names_made_unique_per_step")
     if done >= 2:
         classes.append("hist>=2")
     nt = False
